@@ -267,7 +267,11 @@ impl Dictionary {
         }
         self.data.connector.map_connection_ids(&mapper);
         self.data.unk_handler.map_connection_ids(&mapper);
-        self.data.mapper = Some(mapper);
+        // Keeps the mapping from the original ids, which later user lexicons are written in.
+        self.data.mapper = Some(match self.data.mapper.take() {
+            Some(prev) => prev.compose(&mapper),
+            None => mapper,
+        });
         Ok(self)
     }
 }
